@@ -27,12 +27,69 @@ var traceKey = query_context.RegKey()
 type sharedExec struct {
 	steps atomic.Int64
 	limit int64
+	wg    sync.WaitGroup // late-run goroutines started by lateg wrappers; joined by the harness
 }
 
 // one per query context (the original and every Copy made by a conc wrapper)
 type tctx struct {
-	buf []string
-	sh  *sharedExec
+	buf      []string
+	sh       *sharedExec
+	deferred []*pending // continuations kept by late-running wrappers on this context, in order
+}
+
+// pending: a continuation kept by a wrapper beyond the return of its Exec,
+// together with a private copy of the query as it was at that moment.
+type pending struct {
+	label, kind string
+	next        sequence.ChainWalker
+	q           *query_context.Context
+	// lateg kinds: run by a goroutine of the same top-level execution
+	grun *obsRun
+}
+
+type obsRun struct {
+	res      result
+	pend     []*pending
+	runaway  bool
+	panicked any
+}
+
+// runKept runs a kept continuation once on a fresh copy of the kept query with
+// a trace buffer of its own.
+func runKept(p *pending, sh *sharedExec) *obsRun {
+	c := p.q.Copy()
+	t := &tctx{sh: sh}
+	c.StoreValue(traceKey, t)
+	o := &obsRun{}
+	var err error
+	func() {
+		defer func() {
+			if r := recover(); r != nil {
+				o.panicked = r
+			}
+		}()
+		err = p.next.ExecNext(context.Background(), c)
+	}()
+	o.runaway = errors.Is(err, errRunaway)
+	o.res = result{Trace: t.buf, Resp: realMarker(c), Err: errLabel(err)}
+	o.pend = t.deferred
+	return o
+}
+
+// obsDeferred converts the kept continuations registered on one context into
+// the comparable form; call only after sh.wg.Wait().
+func obsDeferred(pend []*pending) []dres {
+	var out []dres
+	for _, p := range pend {
+		d := dres{Label: p.label, Kind: p.kind}
+		if p.grun != nil {
+			r := p.grun.res
+			r.Deferred = obsDeferred(p.grun.pend)
+			d.Res = &r
+		}
+		out = append(out, d)
+	}
+	return out
 }
 
 func getT(q *query_context.Context) *tctx {
@@ -248,6 +305,26 @@ func (w *hWrap) Exec(ctx context.Context, q *query_context.Context, next sequenc
 			return e1
 		}
 		return e2
+	case "lateg", "lategc", "later", "laterc", "later3":
+		p := &pending{label: w.label, kind: w.kind, next: next, q: q.Copy()}
+		t.deferred = append(t.deferred, p)
+		if w.kind == "lateg" || w.kind == "lategc" {
+			// (a) run it after this Exec has returned, before the top-level Exec is
+			// judged: the goroutine is released by the deferred close below
+			returned := make(chan struct{})
+			sh := t.sh
+			sh.wg.Add(1)
+			go func() {
+				defer sh.wg.Done()
+				<-returned
+				p.grun = runKept(p, sh)
+			}()
+			defer close(returned)
+		}
+		if w.kind == "lategc" || w.kind == "laterc" {
+			return next.ExecNext(ctx, q)
+		}
+		return nil
 	case "conc":
 		type br struct {
 			q     *query_context.Context
@@ -294,6 +371,7 @@ func (w *hWrap) Exec(ctx context.Context, q *query_context.Context, next sequenc
 			if first == nil {
 				first = b.err
 			}
+			t.deferred = append(t.deferred, b.t.deferred...)
 		}
 		if err := t.add(sb.String()); err != nil {
 			return err
@@ -315,11 +393,14 @@ func registerQuickSetups() {
 type world struct {
 	m       *coremain.Mosdns
 	plugins map[string]any
+	noise   *sequence.Sequence
 }
 
 func newWorld() *world {
 	ps := map[string]any{}
-	return &world{m: coremain.NewTestMosdnsWithPlugins(ps), plugins: ps}
+	w := &world{m: coremain.NewTestMosdnsWithPlugins(ps), plugins: ps}
+	w.buildNoise()
+	return w
 }
 
 func makePlugin(s PluginSpec) (any, error) {
@@ -441,8 +522,9 @@ func (w *world) build(p *Program) ([]*sequence.Sequence, error) {
 	return out, nil
 }
 
-// exec runs one built sequence at top level on a fresh query.
-func realExec(s *sequence.Sequence, preset bool, limit int) (res result, runaway bool, panicked any) {
+// exec runs one built sequence at top level on a fresh query. pend are the
+// continuations kept by wrappers (those of the lateg kinds have already run).
+func realExec(s *sequence.Sequence, preset bool, limit int) (res result, pend []*pending, runaway bool, panicked any) {
 	q := new(dns.Msg)
 	q.SetQuestion("c06.test.", dns.TypeA)
 	q.Id = queryID
@@ -461,8 +543,75 @@ func realExec(s *sequence.Sequence, preset bool, limit int) (res result, runaway
 		}()
 		err = s.Exec(context.Background(), qc)
 	}()
+	t.sh.wg.Wait()
 	if errors.Is(err, errRunaway) || t.sh.steps.Load() > int64(limit) {
 		runaway = true
 	}
-	return result{Trace: t.buf, Resp: realMarker(qc), Err: errLabel(err)}, runaway, panicked
+	if p := firstPanic(t.deferred); p != nil && panicked == nil {
+		panicked = p
+	}
+	return result{Trace: t.buf, Resp: realMarker(qc), Err: errLabel(err), Deferred: obsDeferred(t.deferred)}, t.deferred, runaway, panicked
+}
+
+func firstPanic(pend []*pending) any {
+	for _, p := range pend {
+		if p.grun != nil {
+			if p.grun.panicked != nil {
+				return p.grun.panicked
+			}
+			if r := firstPanic(p.grun.pend); r != nil {
+				return r
+			}
+		}
+	}
+	return nil
+}
+
+// runKeptLater runs a kept continuation after its top-level execution is over
+// (kinds later / laterc / later3), on this goroutine or on a new one.
+func runKeptLater(p *pending, limit int, newGoroutine bool) *obsRun {
+	sh := &sharedExec{limit: int64(limit)}
+	var o *obsRun
+	if newGoroutine {
+		done := make(chan struct{})
+		go func() {
+			defer close(done)
+			o = runKept(p, sh)
+		}()
+		<-done
+	} else {
+		o = runKept(p, sh)
+	}
+	sh.wg.Wait()
+	if sh.steps.Load() > int64(limit) {
+		o.runaway = true
+	}
+	if r := firstPanic(o.pend); r != nil && o.panicked == nil {
+		o.panicked = r
+	}
+	o.res.Deferred = obsDeferred(o.pend)
+	return o
+}
+
+// noise: an unrelated program with a jump whose return point differs from
+// everything the generators produce; executed between a top-level execution
+// and the late runs of its kept continuations.
+func (w *world) buildNoise() {
+	clear(w.plugins)
+	sub, err := sequence.NewSequence(sequence.NewBQ(w.m, zap.NewNop()), []sequence.RuleArgs{{Exec: "ha ok noise_s0"}})
+	if err != nil {
+		panic(err)
+	}
+	w.plugins["noise_sub"] = sub
+	main, err := sequence.NewSequence(sequence.NewBQ(w.m, zap.NewNop()), []sequence.RuleArgs{
+		{Exec: "ha ok noise_m0"}, {Exec: "jump noise_sub"}, {Exec: "ha ok noise_m2"}, {Exec: "jump noise_sub"}, {Exec: "ha ok noise_m4"}})
+	if err != nil {
+		panic(err)
+	}
+	w.noise = main
+	clear(w.plugins)
+}
+
+func (w *world) runNoise() {
+	realExec(w.noise, false, 100)
 }
